@@ -8,12 +8,13 @@ import re
 from collections import namedtuple
 
 from ural.utils import pathsplit, safe_urlsplit, SplitResult
-from ural.patterns import DOMAIN_TEMPLATE
+from ural.patterns import DOMAIN_TEMPLATE, HOSTNAME_TEMPLATE
 
 INSTAGRAM_POST_SHORTCODE_RE = re.compile(r"^[a-zA-Z0-9_\-]+$")
 INSTAGRAM_USERNAME_RE = re.compile(r"^[a-zA-Z0-9_\-\.]+$")
-INSTAGRAM_DOMAIN_RE = re.compile(r"instagram.com$", re.I)
-INSTAGRAM_URL_RE = re.compile(DOMAIN_TEMPLATE % r"(?:[^.]+\.)*instagram.com", re.I)
+INSTAGRAM_DOMAIN = r"instagram\.com"
+INSTAGRAM_DOMAIN_RE = re.compile(HOSTNAME_TEMPLATE % INSTAGRAM_DOMAIN, re.I)
+INSTAGRAM_URL_RE = re.compile(DOMAIN_TEMPLATE % INSTAGRAM_DOMAIN, re.I)
 INSTAGRAM_NOT_A_USER_SET = {
     "accounts",
     "ads",
